@@ -110,6 +110,21 @@ impl Check for C16 {
             }
             if tape.draw(2) == 1 {
                 fs.mkdir_all(&format!("{}/.kismet_temp", p));
+                if tape.draw(2) == 1 {
+                    // an application staging directory inside the temporary
+                    // directory, older than the age limit, holding live files
+                    // whose names also exist as stale files one level up
+                    let td = format!("{}/.kismet_temp", p);
+                    let old = fs.now - 7_200_000_000_000;
+                    fs.mkdir_all(&format!("{}/stage", td));
+                    for i in 0..3 {
+                        fs.plant_file(&format!("{}/stage/n{}", td, i), b"live staging data", 0o644, fs.now - 1_000_000_000, fs.now - 1_000_000_000);
+                        fs.plant_file(&format!("{}/n{}", td, i), b"stale", 0o600, old, old);
+                    }
+                    if let Ok(st) = fs.stat(&format!("{}/stage", td)) {
+                        fs.utimens_ino(st.ino, old, old);
+                    }
+                }
             }
         }
         fs.plant_file(&format!("{}/good", ro_root), &make_value("good", 59, 4), 0o444, past - 120_000_000_000, past);
@@ -222,6 +237,17 @@ impl Check for C16 {
                 }
             }
         }
+        // the temporary directory itself and the files directly inside it (never
+        // anything nested deeper: "nor inside nested subdirectories")
+        let in_temp = |path: &str| {
+            phys.iter().any(|p| {
+                let td = format!("{}/.kismet_temp", p);
+                path == td || path.strip_prefix(&format!("{}/", td)).map(|rest| !rest.contains('/')).unwrap_or(false)
+            })
+        };
+        // staging through Cache::temp_dir() is a library call of its own, with
+        // its own right to reclaim stale files of the temporary directory
+        let changed: Vec<(String, String)> = if invalid { changed.into_iter().filter(|c| !(c.0 == "deleted" && in_temp(&c.1))).collect() } else { changed };
         if invalid {
             match &res.out {
                 Err(e) if e.kind == ErrorKind::InvalidInput => {}
@@ -240,7 +266,7 @@ impl Check for C16 {
                 // with maintenance firing, evictions and reprieves of other
                 // entries of the same directories are legitimate effects
                 let maintained = fire && c.0 != "created" && matches!(classify(&w.dirs, path), Loc::Key { .. });
-                let ok = (single && expected.iter().any(|e| e == path)) || path.contains("/.kismet_temp") || phys.iter().any(|p| p == path) || path == root || maintained;
+                let ok = (single && expected.iter().any(|e| e == path)) || in_temp(path) || phys.iter().any(|p| p == path) || path == root || maintained;
                 if !ok {
                     fail(&mut out, "escape", format!("name {:?} ({}): effect outside the single expected path: {} {:?}", name, op.name(), c.0, c.1));
                 }
